@@ -100,7 +100,7 @@ theorem exPre5 : PreF exMod exVars (.dft exD1 exX) exSt4 := by
   rw [ex_f4]; exact exRtBudget
 
 theorem exPre6 : PreF exMod exVars (.vmpDD exD2 exD1 exM0) exSt5 := by
-  refine ⟨#[#[1, 2]], #[#[3, 4]], ex_f5.1, ex_f5.2, ?_⟩
+  refine ⟨by decide, #[#[1, 2]], #[#[3, 4]], ex_f5.1, ex_f5.2, ?_⟩
   show VmpBudget exMod (flatOf 2 (1 * 1) (fun i t => Val.coef #[#[3, 4]] i t)) 1 1
     (flatOf 2 1 (fun i t => Val.coef #[#[1, 2]] i t)) 1 1
   rw [ex_mat.1, ex_mat.2]; exact exVmpBudget
